@@ -152,6 +152,11 @@ def weave(item, ext):
             tag = {'loop': 'INV', 'pre': 'PRE', 'top': 'TOP', 'bot': 'BOT', 'post': 'POST'}[kind]
             mk = '/*@%s:%d@*/' % (tag, arg)
             if mk not in text:
+                if USE_BASELINE_LOOPS and (shapes().get(what) or {}).get('loops'):
+                    # the loop the invariant / hint was written for no longer exists (the function was restructured): the piece
+                    # is moot; the function's own contract still has to hold for whatever replaced the loop
+                    REANCHORED.append("%s: loop %d no longer exists, its woven %s was dropped" % (what, arg, kind))
+                    continue
                 raise Undecided("lost anchor: %s: no loop %d (function shape changed)" % (what, arg))
             text = text.replace(mk, '\n' + body + '\n', 1)
         elif kind == 'closure':
